@@ -88,10 +88,23 @@ func canonScalar(v any, t *sdcpb.SchemaLeafType, ietf bool) (string, string) {
 	case string:
 		switch typ {
 		case "identityref":
+			name, mod := x, ""
 			if i := strings.Index(x, ":"); i >= 0 {
-				return x[i+1:], ""
+				mod, name = x[:i], x[i+1:]
 			}
-			return x, ""
+			prob := ""
+			if ietf {
+				// RFC 7951 6.8: the namespace-qualified form MUST be used if the identity is defined in another
+				// module than the leaf; otherwise both forms are permitted
+				idMod := t.GetModulePrefixMap()[name]
+				switch {
+				case mod != "" && idMod != "" && mod != idMod:
+					prob = fmt.Sprintf("identity %s qualified with module %q, it is defined in %q", name, mod, idMod)
+				case mod == "" && idMod != "" && idMod != "verif-vm":
+					prob = fmt.Sprintf("identity %s of module %q lacks its module name in JSON_IETF", name, idMod)
+				}
+			}
+			return name, prob
 		case "decimal64":
 			return canonDecimalString(x)
 		}
